@@ -495,4 +495,51 @@ theorem C11_model_eq_spec (sel : Nat → Bool) (pred : Fld → Fld → Outcome) 
       Bool.true_and]
     exact hp2.all_eq
 
+/-- the result depends on the filter decision only through the names of source fields -/
+theorem C11_sel_congr (sel sel' : Nat → Bool) (dom : Bool) (pred : Fld → Fld → Outcome) (src ref : List Fld)
+    (h : ∀ f ∈ src, sel f.name = sel' f.name) :
+    comparatorCall sel dom pred src ref = comparatorCall sel' dom pred src ref := by
+  have hf : filterMatches sel (findMatches nameEq src ref).pairs = filterMatches sel' (findMatches nameEq src ref).pairs := by
+    simp only [filterMatches]
+    have e1 : (findMatches nameEq src ref).pairs.filter (fun p => sel p.1.name)
+        = (findMatches nameEq src ref).pairs.filter (fun p => sel' p.1.name) := by
+      apply List.filter_congr
+      intro p hp
+      exact h p.1 (C11_pairs_sound src ref p hp).1
+    have e2 : (findMatches nameEq src ref).pairs.filter (fun p => !sel p.1.name)
+        = (findMatches nameEq src ref).pairs.filter (fun p => !sel' p.1.name) := by
+      apply List.filter_congr
+      intro p hp
+      rw [h p.1 (C11_pairs_sound src ref p hp).1]
+    rw [e1, e2]
+  cases dom with
+  | false => simp [comparatorCall]
+  | true => simp only [comparatorCall, comparisons, hf]
+
+/-- **C11 (filters see the name without the cell-type annotation) — PARTIAL.**
+
+    Full statement (FALSE for the code as it is, finding F14): for all field collections the comparator
+    behaves as if the filters were evaluated on the user-level name — the name itself for point / tabular
+    fields, the name without the appended cell-type annotation for cell fields
+    (`comparatorCall (selectedName strip incl excl) = comparatorCall (Spec.userSelected strip annot incl excl)`).
+
+    Proved: the statement under the extra hypothesis `Spec.plainFixed strip annot src` — no plain source
+    field name is changed by `remove_annotation` (no plain name contains " @ ").  `remove_annotation`
+    cuts EVERY name at its last " @ ", also names that carry no annotation; the negation witness is in
+    FcProofs/Witness/C11.lean, the class predicate of F14 is `¬ plainFixed`. -/
+theorem C11_filter_names_partial (strip : Nat → Nat) (annot : Nat → Bool) (incl excl : Nat → Bool) (dom : Bool)
+    (pred : Fld → Fld → Outcome) (src ref : List Fld) (hfix : Spec.plainFixed strip annot src = true) :
+    comparatorCall (selectedName strip incl excl) dom pred src ref
+      = comparatorCall (Spec.userSelected strip annot incl excl) dom pred src ref := by
+  apply C11_sel_congr
+  intro f hf
+  have := (List.all_eq_true.mp hfix) f hf
+  simp only [Bool.or_eq_true, beq_iff_eq] at this
+  simp only [selectedName, Spec.userSelected]
+  rcases this with h | h
+  · simp [h]
+  · by_cases ha : annot f.name = true
+    · simp [ha]
+    · simp [ha, h]
+
 end Fc
